@@ -1240,6 +1240,7 @@ type c01Divergence struct {
 	BlocklistPrev    bool   `json:"blocklist_changed_in_previous_epoch"`
 	BlocklistBefore  bool   `json:"blocklist_changed_before"`
 	Stale            string `json:"unchanged_next_epoch_validators"` // source | replica | none
+	Fault            string `json:"fault_phase,omitempty"`           // seen during / after an injected failing flush (c01fault.go)
 	Signature        string `json:"signature"`
 }
 
@@ -1258,6 +1259,8 @@ type c01Replica struct {
 	Seed     uint64 `json:"seed"`
 	// further node-local options by field name of config.Blockchain (see c01NodeLocalOptions): bool 1 = flipped
 	Opts map[string]int64 `json:"opts,omitempty"`
+	// flushes that fail, with blocks added while they are in progress (c01fault.go)
+	Faults []c01Fault `json:"faults,omitempty"`
 }
 
 type c01Proto struct {
@@ -1307,15 +1310,20 @@ func c01OpenStore(kind, dir string) (storage.Store, error) {
 }
 
 // c01RunReplica feeds the blocks to one replica and returns the first height at which it differs from the source.
-func c01RunReplica(p c01Proto, rp c01Replica, src *c05Chain, blocks []*block.Block, obs []*c01Obs) (dv *c01Divergence, err error) {
+func c01RunReplica(p c01Proto, rp c01Replica, src *c05Chain, blocks []*block.Block, obs []*c01Obs, fstats map[string]int) (dv *c01Divergence, err error) {
 	t := &c05TB{}
 	defer t.done()
 	dir := t.TempDir()
 	r := newRng(rp.Seed)
+	var fst *c01FaultStore // the lower store of a replica with failing flushes
 	open := func() (*core.Blockchain, error) {
 		st, err := c01OpenStore(rp.Store, dir)
 		if err != nil {
 			return nil, err
+		}
+		if len(rp.Faults) > 0 {
+			fst = &c01FaultStore{Store: st}
+			st = fst
 		}
 		bc, _, _, err := c05NewChain(t, rp.hook(p), st)
 		return bc, err
@@ -1324,7 +1332,12 @@ func c01RunReplica(p c01Proto, rp c01Replica, src *c05Chain, blocks []*block.Blo
 	if err != nil {
 		return nil, err
 	}
-	defer func() { bc.Close() }()
+	defer func() {
+		if fst != nil {
+			fst.disarm()
+		}
+		bc.Close()
+	}()
 	restart := map[int]bool{}
 	for _, h := range rp.Restarts {
 		restart[h] = true
@@ -1378,7 +1391,36 @@ func c01RunReplica(p c01Proto, rp c01Replica, src *c05Chain, blocks []*block.Blo
 		return d
 	}
 	junkNonce := uint32(1 << 30)
-	for i, b := range blocks {
+	faultAt := map[int]c01Fault{}
+	for _, f := range rp.Faults {
+		faultAt[f.At] = f
+	}
+	noFlushAfter := map[int]bool{} // heights after which the regular flush is left out (a fault wants a big batch)
+	for _, f := range rp.Faults {
+		for x := f.At - f.Gather; x <= f.At; x++ {
+			noFlushAfter[x] = true
+		}
+		if f.Gather == 0 {
+			delete(noFlushAfter, f.At-1)
+		}
+	}
+	// check compares this node with the source at block i
+	check := func(i int, after bool, phase string) *c01Divergence {
+		mine := c01Observe(bc, src.u, blocks[i])
+		if f, d := c01Diff(obs[i], mine); f != nil {
+			dv := mk(i, after, mine, f, d, "")
+			if phase != "" {
+				dv.Fault = phase
+				dv.Signature += ";fault=" + phase
+			}
+			return dv
+		}
+		return nil
+	}
+	// stepBlock adds block i (quiet: no flush and no restart of the regular schedule) and compares
+	var stepBlock func(i int, quiet bool, phase string) *c01Divergence
+	stepBlock = func(i int, quiet bool, phase string) *c01Divergence {
+		b := blocks[i]
 		if rp.Junk && r.chance(60) {
 			// junk in the pool: valid transactions that never make it into a block, and copies of the next block's
 			// transactions (so that the block finds some of its transactions already pooled)
@@ -1405,9 +1447,17 @@ func c01RunReplica(p c01Proto, rp c01Replica, src *c05Chain, blocks []*block.Blo
 			}
 		}
 		if err := bc.AddBlock(b); err != nil {
-			return mk(i, false, nil, []string{"AddBlock"}, nil, "AddBlock: "+err.Error()), nil
+			return mk(i, false, nil, []string{"AddBlock"}, nil, "AddBlock: "+err.Error())
 		}
-		switch rp.Flush {
+		var err error
+		flush := rp.Flush
+		if quiet || noFlushAfter[int(b.Index)] {
+			flush = "never"
+		}
+		if _, ok := faultAt[int(b.Index)+1]; ok && faultAt[int(b.Index)+1].Gather == 0 && !quiet {
+			flush = "every" // the batch of the failing flush is the next block alone
+		}
+		switch flush {
 		case "every":
 			if rp.GC {
 				_, err = bc.VerifPersistGC()
@@ -1424,21 +1474,37 @@ func c01RunReplica(p c01Proto, rp c01Replica, src *c05Chain, blocks []*block.Blo
 			}
 		}
 		if err != nil {
-			return mk(i, false, nil, []string{"VerifPersist"}, nil, "VerifPersist: "+err.Error()), nil
+			return mk(i, false, nil, []string{"VerifPersist"}, nil, "VerifPersist: "+err.Error())
 		}
-		mine := c01Observe(bc, src.u, b)
-		if f, d := c01Diff(obs[i], mine); f != nil {
-			return mk(i, false, mine, f, d, ""), nil
+		if dv := check(i, false, phase); dv != nil {
+			return dv
 		}
-		if restart[int(b.Index)] && rp.Store != "mem" {
+		if restart[int(b.Index)] && rp.Store != "mem" && !quiet && len(faultAt) == 0 {
 			bc.Close()
 			bc, err = open()
 			if err != nil {
-				return mk(i, true, nil, []string{"restart"}, nil, "restart: "+err.Error()), nil
+				return mk(i, true, nil, []string{"restart"}, nil, "restart: "+err.Error())
 			}
-			mine = c01Observe(bc, src.u, b)
-			if f, d := c01Diff(obs[i], mine); f != nil {
-				return mk(i, true, mine, f, d, ""), nil
+			if dv := check(i, true, phase); dv != nil {
+				return dv
+			}
+		}
+		return nil
+	}
+	for i := 0; i < len(blocks); i++ {
+		if dv := stepBlock(i, false, ""); dv != nil {
+			return dv, nil
+		}
+		if f, ok := faultAt[int(blocks[i].Index)]; ok {
+			reopen := func() error {
+				fst.disarm()
+				bc.Close()
+				var err error
+				bc, err = open()
+				return err
+			}
+			if dv := c01RunFault(f, &i, len(blocks), func() *core.Blockchain { return bc }, func() *c01FaultStore { return fst }, stepBlock, check, mk, reopen, restart, rp.Store != "mem", fstats); dv != nil {
+				return dv, nil
 			}
 		}
 	}
@@ -1837,6 +1903,28 @@ func c01Generate(r *rng, c *c05Chain, run *c05Runner, nblocks int) ([]c05Op, err
 				}
 				later = append(later, []c05Op{{T: "cdestroy", F: pick(r, c05Signers), To: d}})
 				later = append(later, []c05Op{{T: "deploy", F: d, K: r.intn(c01NShapes)}, {T: "wl", To: d, A: 5}})
+			case x >= 82 && x < 96 && (deployed[13] || deployed[14]):
+				// waves over the same contract keys in consecutive blocks: many keys put, all of them deleted in the next
+				// block, put again, ...; beside them a few keys going the other way round (what a flush in progress was
+				// writing is deleted meanwhile and vice versa; more / fewer keys than the block before)
+				d := 13
+				if !deployed[13] || (deployed[14] && r.chance(50)) {
+					d = 14
+				}
+				s1, s2 := r.intn(2), 2+r.intn(2)
+				big, small := int64(30+r.intn(90)), int64(1+r.intn(4))
+				k := r.intn(6)
+				sg := func() int { return pick(r, c05Signers) }
+				if err := emit(c05Op{T: "cfill", F: sg(), To: d, N: s1, A: big}, c05Op{T: "cdel", F: sg(), To: d, N: s2, K: k}, c05Op{T: "csweep", F: sg(), To: d, N: s2}); err != nil {
+					return g.ops, err
+				}
+				for w := 0; w < 2+r.intn(4); w++ {
+					if w%2 == 0 {
+						later = append(later, []c05Op{{T: "csweep", F: sg(), To: d, N: s1}, {T: "cfill", F: sg(), To: d, N: s2, A: small}, {T: "cput", F: sg(), To: d, N: s2, K: k, A: int64(r.intn(300))}})
+					} else {
+						later = append(later, []c05Op{{T: "cfill", F: sg(), To: d, N: s1, A: big}, {T: "csweep", F: sg(), To: d, N: s2}, {T: "cdel", F: sg(), To: d, N: s2, K: k}})
+					}
+				}
 			case x < 20:
 				// a voted candidate loses its voters and unregisters (its record is dropped), registers again later and
 				// is voted again
@@ -1922,6 +2010,11 @@ func c01Replicas(r *rng, nblocks int, tier string) []c01Replica {
 		c01Replica{Store: "level", Flush: "random", Restarts: some(25), GC: true, Batch: true, Seed: seed()},
 		c01Replica{Store: "mem", Flush: "every", SkipVer: true, KeepOnly: true, GC: true, Seed: seed()},
 	)
+	// flushes that fail, with blocks added while they hang inside the store (c01fault.go)
+	for k, st := range []string{"mem", "level", "bolt", pick(r, []string{"level", "bolt"})} {
+		out = append(out, c01Replica{Store: st, Flush: pick(r, []string{"never", "random", "random"}), KeepOnly: k == 3 && r.bool(), Junk: k == 0,
+			Faults: c01FaultSchedule(r, nblocks), Seed: seed()})
+	}
 	// every other node-local option of the configuration, singly and in a few random combinations
 	opts, _ := c01NodeLocalOptions()
 	for _, o := range opts {
@@ -2009,6 +2102,7 @@ func c01RunCase(co *caseOut, in c01Input, gen func(c *c05Chain, run *c05Runner) 
 	type rres struct {
 		dv  *c01Divergence
 		err error
+		fst map[string]int // what the failing flushes of this replica met (c01fault.go)
 	}
 	res := make([]rres, len(in.Replicas))
 	var wg sync.WaitGroup
@@ -2024,7 +2118,8 @@ func c01RunCase(co *caseOut, in c01Input, gen func(c *c05Chain, run *c05Runner) 
 					res[i].err = fmt.Errorf("panic: %v", r)
 				}
 			}()
-			res[i].dv, res[i].err = c01RunReplica(in.Proto, in.Replicas[i], c, blocks, obs)
+			res[i].fst = map[string]int{}
+			res[i].dv, res[i].err = c01RunReplica(in.Proto, in.Replicas[i], c, blocks, obs, res[i].fst)
 		}(i)
 	}
 	wg.Wait()
@@ -2037,6 +2132,9 @@ func c01RunCase(co *caseOut, in c01Input, gen func(c *c05Chain, run *c05Runner) 
 			// has diverged from it
 			dv = &c01Divergence{Height: -1, Fields: []string{"error"}, Error: err.Error(),
 				Signature: "fields=error;" + strings.SplitN(err.Error(), "\n", 2)[0]}
+		}
+		for k, v := range res[i].fst {
+			stats[k] += v
 		}
 		stats["replicas"]++
 		stats["heights"] += len(blocks)
@@ -2117,6 +2215,11 @@ func runC01(args []string) error {
 		co.extra["x_replicas"] = stats["replicas"]
 		co.extra["x_heights_compared"] = stats["heights"]
 		co.extra["x_restarts"] = stats["restarts"]
+		for k, v := range stats {
+			if strings.HasPrefix(k, "x_fault_") {
+				co.extra[k] = v
+			}
+		}
 	}()
 	if cf.replay != "" {
 		cases, err := readReplay(cf.replay)
@@ -2138,6 +2241,11 @@ func runC01(args []string) error {
 		co.extra["x_replicas"] = stats["replicas"]
 		co.extra["x_heights_compared"] = stats["heights"]
 		co.extra["x_restarts"] = stats["restarts"]
+		for k, v := range stats {
+			if strings.HasPrefix(k, "x_fault_") {
+				co.extra[k] = v
+			}
+		}
 		return co.finish()
 	}
 	r := newRng(cf.seed)
@@ -2160,6 +2268,11 @@ func runC01(args []string) error {
 	co.extra["x_replicas"] = stats["replicas"]
 	co.extra["x_heights_compared"] = stats["heights"]
 	co.extra["x_restarts"] = stats["restarts"]
+	for k, v := range stats {
+		if strings.HasPrefix(k, "x_fault_") {
+			co.extra[k] = v
+		}
+	}
 	return co.finish()
 }
 
